@@ -16,12 +16,16 @@ package core
 //@ ghost ret_err error
 //@ ghost ret_result []interface{}
 
+// ghost state a downstream handler call may change
+//@ modset NEXT_IO = ghost.fwd, ghost.succ, ghost.npanic, ghost.ret_response, ghost.ret_err, ghost.clock
+//@ modset NEXT_INVOKE = ghost.fwd, ghost.succ, ghost.npanic, ghost.ret_result, ghost.ret_err, ghost.clock
+
 // ---- function-type contracts (assumed for handlers passed in, checked
 // ---- for the handlers defined in this repository) ---------------------
 //
 //@ type NextIOHandler(ctx, request) (response, err)
 //@   havoc
-//@   modifies ghost.fwd, ghost.succ, ghost.npanic, ghost.ret_response, ghost.ret_err, ghost.clock
+//@   modifies @NEXT_IO
 //@   ensures ghost.fwd == old(ghost.fwd) + 1 && ghost.npanic == old(ghost.npanic)
 //@   ensures ghost.succ == old(ghost.succ) + ite(err == nil, 1, 0)
 //@   ensures same(response, ghost.ret_response) && same(err, ghost.ret_err)
@@ -31,7 +35,7 @@ package core
 //
 //@ type NextInvokeHandler(ctx, name, args) (result, err)
 //@   havoc
-//@   modifies ghost.fwd, ghost.succ, ghost.npanic, ghost.ret_result, ghost.ret_err, ghost.clock
+//@   modifies @NEXT_INVOKE
 //@   ensures ghost.fwd == old(ghost.fwd) + 1 && ghost.npanic == old(ghost.npanic)
 //@   ensures ghost.succ == old(ghost.succ) + ite(err == nil, 1, 0)
 //@   ensures same(result, ghost.ret_result) && same(err, ghost.ret_err)
